@@ -175,7 +175,7 @@ func runC19(cx *Ctx) {
 		"nt-error — every row of the error table is a package-level errors.New/fmt.Errorf (or a typed string sentinel with an Error method) with non-empty text, guards that order the receiver against constants (`s >= 0xC0000000`) are evaluated for every non-success key of the table, and for NT_STATUS.Error() the guards of all control paths are evaluated under `receiver ∈ NTStatusToGoErrorMap ∧ receiver ≠ NT_STATUS_SUCCESS` (boolean reasoning over found / equals atoms, both polarities, &&, ||, De Morgan, switch arms, accumulators): no nil return is reachable, and every return that is reachable is fmt.Errorf / errors.New whose text prints the receiver numerically (numeric verb not diverted to String(), strconv.Format*), so non-nil for every declared non-success status reduces to table coverage; " +
 		"table-const — no name table (nor any constant table a decomposer or name function was resolved through, package-level or local) is written, deleted from or re-assigned anywhere in the module — directly, through a local alias, through a struct field that holds it, or inside a module function it is passed to (the static rows are the run-time rows); a flow the rule cannot follow, with no write seen, is NOT DECIDED; " +
 		"flag-family — constants of Flags, Flags2, Capabilities, SecurityMode, UserAccountControl, CustomKeyInformationFlags are single bits and pairwise distinct (zero is a sentinel and must not be used as a mask); " +
-		"flag-decomp — in each decomposer every test is `word & C ==C | !=0 | >0` (also `(word>>k)&1`) of one family constant against itself with positive polarity (or the negated test followed by `continue`), emits exactly one non-empty name (append, WriteString on a builder, a yield of an iterator, a call of a collecting callback) that is not the empty-word placeholder, is not another constant's name and is distinct from the other names — or the tested constant itself for a decomposer into values — and every family constant is tested exactly once (one `covers` obligation per decomposer and family bit). A loop over a constant table (array / slice / map composite literal of {mask, name} or {name, predicate} rows, parallel tables indexed by the counter, a mask list with names looked up in a constant map, slices.Sorted(maps.Keys(T)) also cached in a package-level variable, maps.Keys / Values / All ranged or collected, a counting loop or a bit walk with constant bounds, `_, ok := T[k]` membership, `name != \"\"` of a looked-up name, a sparse [N]string indexed by bit number) is resolved statically and decided row by row exactly like the if-chain it replaces, so a missing, duplicated or mis-named row is reported. A walk over the SET BITS of the word itself (`for r := w; r != 0; r &= r-1` with `r & -r` / bits.TrailingZeros, the step in the header or the body, lowest or highest bit first, the word's own copy or a masked / shifted start) and a loop over what ANOTHER decomposer of the word reports (a slice it returns, an iter.Seq / iter.Seq2 it yields) are unrolled into one implicit `word & bit != 0` test per bit; tests moved into a helper, a local closure or a generic function that receives the word (and the table) are followed; range decomposers over the bound map: the single test is `word & key != 0`, the body appends the key or the value, and every table key is a single-bit family constant; " +
+		"flag-decomp — in each decomposer every test is `word & C ==C | !=0 | >0` (also `(word>>k)&1`) of one family constant against itself with positive polarity (or the negated test followed by `continue`), emits exactly one non-empty name (append, `buf[n] = name; n++`, WriteString on a builder, a yield of an iterator, a call of a collecting callback) that is not the empty-word placeholder, is not another constant's name and is distinct from the other names — or the tested constant itself for a decomposer into values — and every family constant is tested exactly once (one `covers` obligation per decomposer and family bit). A loop over a constant table (array / slice / map composite literal of {mask, name} or {name, predicate} rows, parallel tables indexed by the counter, a mask list with names looked up in a constant map, slices.Sorted(maps.Keys(T)) also cached in a package-level variable, maps.Keys / Values / All ranged or collected, a counting loop or a bit walk with constant bounds, `_, ok := T[k]` membership, `name != \"\"` of a looked-up name, a sparse [N]string indexed by bit number) is resolved statically and decided row by row exactly like the if-chain it replaces, so a missing, duplicated or mis-named row is reported. A walk over the SET BITS of the word itself (`for r := w; r != 0; r &= r-1` with `r & -r` / bits.TrailingZeros, the step in the header or the body, lowest or highest bit first, the word's own copy or a masked / shifted start) and a loop over what ANOTHER decomposer of the word reports (a slice it returns, an iter.Seq / iter.Seq2 it yields) are unrolled into one implicit `word & bit != 0` test per bit; tests moved into a helper, a local closure or a generic function that receives the word (and the table) are followed; range decomposers over the bound map: the single test is `word & key != 0`, the body appends the key or the value, and every table key is a single-bit family constant; " +
 		"order — every statement that fills variables in map order inside a decomposer (or a helper it calls) or from a name table anywhere in the module (range over the map, over maps.Keys/Values/All, slices.Collect of those) hands each variable it fills to sort.* / slices.Sort* (total order) before any other use, also when the iteration sits in a nested block; an unexported function that returns the unsorted slice is decided at its call sites; if-chains report in source order, array / slice tables in index order, set-bit walks in bit order; " +
 		"predicate — every niladic bool method of a flag type is `recv & C ⋈ 0|C` for exactly one family constant (all control paths followed: if / else, tagless switch, named result, helpers, generic helpers, statically resolved function values), agrees with the frozen predicate→constant table (26 rows), and two predicates share a constant only as a complementary pair; " +
 		"name functions that are no longer a top-level switch (if-chain, lookup in a constant map, switch with initialiser, a helper function the value is handed to) are evaluated for every declared constant: exactly one return is reachable under `value == K`, and what it returns is K's name; a String() that names the values itself although its table exists (map → switch) is compared case by case with the table's rows. " +
